@@ -81,12 +81,19 @@ pub fn part_c_binary(_tier: Tier) -> Part {
             return part;
         }
     };
-    for (name, exe) in bins.iter().filter(|b| b.0.starts_with("eh-")) {
+    let mut targets: Vec<(String, String, &str, Vec<&str>)> = bins.iter().filter(|b| b.0.starts_with("eh-")).map(|b| (format!("c {}", b.0), b.1.clone(), "cframes.c", vec!["leaf", "middle", "outer", "main", "nosuchfn"])).collect();
+    // one source file that contributes rows to two compilation units: a library crate whose
+    // generic function (instantiated in the binary's unit) begins on the line after a plain one ends
+    match build_two_units() {
+        Ok(exe) => targets.push(("rust two-units".to_string(), exe, "geo.rs", vec!["area", "scale", "twice", "main", "nosuchfn"])),
+        Err(e) => part.violate("C04:machinery:two-units-build", e, json!({})),
+    }
+    for (name, exe, file, fns) in &targets {
         let job = json!({"exe": exe, "args": [], "main_entry_sp": 0, "bt": false, "commands": [
             {"op":"break_fn","name":"main"},
             {"op":"start"},
             {"op":"remove_fn","name":"main"},
-            {"op":"c04_sweep","file":"cframes.c","fns":["leaf","middle","outer","main","nosuchfn"]},
+            {"op":"c04_sweep","file":file,"fns":fns},
             {"op":"continue"}
         ]});
         let replay = json!({"engine":"c04-job","job":job});
@@ -104,24 +111,71 @@ pub fn part_c_binary(_tier: Tier) -> Part {
                 part.distinct_nontrivial += sw["nontrivial"].as_u64().unwrap_or(0);
                 part.states += 1;
                 for f in sw["findings"].as_array().cloned().unwrap_or_default() {
-                    part.violate(f["sig"].as_str().unwrap_or("C04:?"), format!("[c {name}] {}", f["detail"].as_str().unwrap_or("")), replay.clone());
+                    part.violate(f["sig"].as_str().unwrap_or("C04:?"), format!("[{name}] {}", f["detail"].as_str().unwrap_or("")), replay.clone());
                 }
-                part.sample(json!({"binary": name, "user_functions": sw["user_functions"], "lines": sw["max_line"]}));
+                part.sample(json!({"binary": name.clone(), "user_functions": sw["user_functions"], "lines": sw["max_line"]}));
                 if obs.get(4).map(|o| o["res"]["kind"] != "exit").unwrap_or(true) {
                     part.violate("C04:c-binary:program-did-not-finish", format!("[{name}] {:?}", obs.get(4).map(|o| o["res"].clone())), replay.clone());
                 }
             }
             WorkerOutcome::Crashed { status, stderr, .. } => {
                 let first = stderr.lines().find(|l| l.contains("panicked")).unwrap_or(stderr.lines().last().unwrap_or("")).to_string();
-                part.violate("C04:debugger-crashed", format!("[c {name}] {status}: {first}"), replay);
+                part.violate("C04:debugger-crashed", format!("[{name}] {status}: {first}"), replay);
             }
-            WorkerOutcome::Timeout { .. } => part.violate("C04:debugger-hung", format!("[c {name}]"), replay),
+            WorkerOutcome::Timeout { .. } => part.violate("C04:debugger-hung", format!("[{name}]"), replay),
         }
     }
     part.transitions = part.evaluations;
     part.traces_validated = part.states;
-    part.bounds = json!({"binaries": 2});
+    part.bounds = json!({"binaries": targets.len()});
     part
+}
+
+const GEO: &str = r#"pub fn area(w: u32, h: u32) -> u32 {
+    let a = w * h;
+    a + 1
+}
+pub fn scale<T: Into<u64>>(v: T, k: u64) -> u64 {
+    let x: u64 = v.into();
+    x * k
+}
+pub fn twice(v: u64) -> u64 {
+    v * 2
+}
+"#;
+
+const APP: &str = r#"extern crate geo;
+fn main() {
+    let a = geo::area(3, 4);
+    let b = geo::scale(5u32, 2) + geo::scale(7u8, 3);
+    let c = geo::twice(a as u64);
+    println!("{a} {b} {c}");
+}
+"#;
+
+fn build_two_units() -> Result<String, String> {
+    let dir = build_dir().join("twounits");
+    std::fs::create_dir_all(&dir).map_err(|e| e.to_string())?;
+    let mut fresh = true;
+    for (n, t) in [("geo.rs", GEO), ("app.rs", APP)] {
+        let p = dir.join(n);
+        if std::fs::read_to_string(&p).map(|x| x != t).unwrap_or(true) {
+            std::fs::write(&p, t).map_err(|e| e.to_string())?;
+            fresh = false;
+        }
+    }
+    let exe = dir.join("app");
+    if fresh && exe.exists() {
+        return Ok(exe.display().to_string());
+    }
+    let d = dir.display().to_string();
+    let run = |args: &[&str]| -> Result<(), String> {
+        let o = std::process::Command::new("rustc").current_dir("/").arg("+1.89").args(["--edition", "2021", "-g", "-C", "opt-level=0"]).args(args).output().map_err(|e| e.to_string())?;
+        if o.status.success() { Ok(()) } else { Err(String::from_utf8_lossy(&o.stderr).to_string()) }
+    };
+    run(&["--crate-type", "rlib", "--crate-name", "geo", "-o", &format!("{d}/libgeo.rlib"), &format!("{d}/geo.rs")])?;
+    run(&["--extern", &format!("geo={d}/libgeo.rlib"), "-o", &format!("{d}/app"), &format!("{d}/app.rs")])?;
+    Ok(exe.display().to_string())
 }
 
 pub fn replay(v: &Value) -> i32 {
